@@ -112,3 +112,30 @@ Proof.
   reflexivity.
 Qed.
 End Opt.
+
+Section R3.
+Variable bs : list funcdef.
+
+(* R3 on the argument of a one-argument NATIVE function (incl. path, getpath, _last, error/1) *)
+Lemma wrap_native_arg1 n rho name a v ps k :
+  is_var_name name = false ->
+  lookup_fun rho name 1 = None -> lookup_builtin bs name 1 = None ->
+  call bs (7 + n) rho name [wrap a] v ps k = call bs (4 + n) rho name [a] v ps k.
+Proof.
+  intros Hv H1 H2. unfold call. cbn [Nat.add evals_n step ev_call]. unfold step_call.
+  cbn [List.length]. rewrite Hv, H1, H2. cbn [andb].
+  repeat match goal with |- context [if ?b then _ else _] => destruct b end; try reflexivity.
+Qed.
+
+Lemma wrap_native_arg2 n rho name a b v ps k :
+  is_var_name name = false ->
+  lookup_fun rho name 2 = None -> lookup_builtin bs name 2 = None ->
+  call bs (8 + n) rho name [wrap a; wrap b] v ps k = call bs (5 + n) rho name [a; b] v ps k.
+Proof.
+  intros Hv H1 H2. unfold call. cbn [Nat.add evals_n step ev_call]. unfold step_call.
+  cbn [List.length]. rewrite Hv, H1, H2. cbn [andb].
+  repeat match goal with |- context [if ?b then _ else _] => destruct b end; try reflexivity.
+  all: destruct ps; reflexivity.
+Qed.
+End R3.
+
